@@ -503,9 +503,10 @@ pub fn plan(prop: &str, tier: &str) -> Option<Plan> {
             }
             // concurrent programs: nobody but the thread itself (reactivate) may move the epoch
             // its live guards were pinned in, whatever the other participants do
-            for pr in [0i64, 2, 5, 6, 11] {
+            for pr in [0i64, 2, 5, 6, 11, 14] {
                 b.add("ebr/sections", &[0], &[&[("prog", pr), ("bag", 64)]], if quick { 2 } else { 3 });
             }
+            b.goal("ebr/sections", "guard-kept-by-deferred-function");
             if !quick {
                 b.add_sliced("ebr/sections", &[0], &[&[("prog", 8), ("bag", 64)]], 2, 16);
                 b.add_sliced("ebr/sections", &[0], &[&[("prog", 1), ("bag", 2)]], 2, 16);
